@@ -1,5 +1,35 @@
-(** C07 -- placeholder while the proofs are built *)
-From RL Require Import Model.Decode.
-Theorem C07_placeholder : m_decode strict_opts [] = Val (Err [IncompleteFlags], []).
-Proof. reflexivity. Qed.
-Print Assumptions C07_placeholder.
+(** C07 -- Every emitted length field is exact; oversize values are refused.
+    [walk_ok] is an independent walker over the emitted octets: the Length field
+    equals the number of octets, and records of the size each AVP header
+    announces tile the body exactly. *)
+From RL Require Import Model.Encode Spec.SpecEncode Spec.SpecDecode Proofs.RefineEncode Proofs.EncodeFacts.
+
+Theorem C07_lengths_exact : forall v p out, m_encode v p = Val out ->
+  exists body, out = p ++ body /\ body = s_encode v /\
+               match v with Control m => walk_ok body = true | Data _ => True end.
+Proof. exact lengths_exact. Qed.
+
+Theorem C07_avp_length_field : forall a rest, avp_fits a = true ->
+  rec_length (s_enc_avp a ++ rest) = len (s_enc_avp a).
+Proof. intros a rest F. rewrite rec_length_enc, len_s_enc_avp by exact F. reflexivity. Qed.
+
+Theorem C07_get_length : forall a, arrays_ok a = true -> len (s_enc_avp a) = 6 + m_get_length a.
+Proof. exact get_length_exact. Qed.
+
+Theorem C07_oversize_avp : forall a p, 1023 < avp_total a -> m_enc_avp a p = Panic PkAssert.
+Proof. exact oversize_avp. Qed.
+
+Theorem C07_oversize_msg : forall m p,
+  forallb avp_fits (c_avps m) = false \/ 65535 < ctrl_total m ->
+  m_encode (Control m) p = Panic PkAssert.
+Proof. exact oversize_msg. Qed.
+
+Example C07_boundary :
+  avp_fits (ABytes HostName (repeat 0 1017)) = true /\ avp_fits (ABytes HostName (repeat 0 1018)) = false.
+Proof. split; vm_compute; reflexivity. Qed.
+
+Print Assumptions C07_lengths_exact.
+Print Assumptions C07_avp_length_field.
+Print Assumptions C07_get_length.
+Print Assumptions C07_oversize_avp.
+Print Assumptions C07_oversize_msg.
